@@ -1,6 +1,7 @@
 import O4.Model.Obfs2
 import O4.Lemmas.Obfs2
 import O4.Lemmas.CtrLaw
+import O4.Generated.Facts.Obfs2
 /-!
 # C14 — obfs2: stream integrity and spec conformance
 
@@ -39,6 +40,30 @@ theorem spec_constants :
     initiatorKdfString = "Initiator obfuscated data" ∧
     responderKdfString = "Responder obfuscated data" :=
   ⟨rfl, rfl, rfl, rfl, rfl, rfl, rfl, rfl, rfl⟩
+
+/-! ### structural facts of the Go source the model rests on (go/ast, regenerated per run) -/
+
+/-- The model treats every MAC / cipher as a pure function of its inputs and every connection as
+owning its primitives; `Read`/`Write` as `cipher.StreamReader.Read` / `StreamWriter.Write` (which
+decrypt and return the n bytes a conn hands out together with an error); the handshake reads as
+`io.ReadFull` (never over-reading). In the source: `mac` makes a fresh `sha256.New()` per call (no
+digest shared between connections/goroutines), `handshake` and `kdf` make fresh `aes.NewCipher` /
+`cipher.NewCTR`, `handshake` reads with `io.ReadFull` only, `Read`/`Write` call only `rx.Read` /
+`tx.Write`. A refactor that shares hash state, bypasses the stream reader or over-reads stops this
+theorem from checking even when no test input exposes it. -/
+theorem structure_facts :
+    "sha256.New" ∈ O4.Facts.Obfs2.func_mac_calls ∧
+    "mac" ∈ O4.Facts.Obfs2.func_hsKdf_calls ∧
+    "aes.NewCipher" ∈ O4.Facts.Obfs2.obfs2Conn_handshake_calls ∧
+    "cipher.NewCTR" ∈ O4.Facts.Obfs2.obfs2Conn_handshake_calls ∧
+    "aes.NewCipher" ∈ O4.Facts.Obfs2.obfs2Conn_kdf_calls ∧
+    "cipher.NewCTR" ∈ O4.Facts.Obfs2.obfs2Conn_kdf_calls ∧
+    "io.ReadFull" ∈ O4.Facts.Obfs2.obfs2Conn_handshake_calls ∧
+    "io.ReadAtLeast" ∉ O4.Facts.Obfs2.obfs2Conn_handshake_calls ∧
+    "Conn.Read" ∉ O4.Facts.Obfs2.obfs2Conn_handshake_calls ∧
+    O4.Facts.Obfs2.obfs2Conn_Read_calls = ["rx.Read"] ∧
+    O4.Facts.Obfs2.obfs2Conn_Write_calls = ["tx.Write"] := by
+  decide
 
 /-! ### the executable instantiation meets the hypotheses used below -/
 
